@@ -35,11 +35,20 @@ var pageAlphabet = []pageItem{
 	{"noId", M{"type": "Note", "content": "no id"}, ""},
 }
 
+// staleHeaders is what middleware or an authentication hook may have left on the ResponseWriter.
+var staleHeaders = map[string][]string{"Content-Type": {"text/html; charset=utf-8"}, "Date": {"Thu, 01 Jan 1970 00:00:00 GMT"},
+	"Digest": {"SHA-256=c3RhbGU="}, "X-Application": {"kept"}}
+
 // headersOK checks Content-Type, Date and Digest against the bytes written.
 func headersOK(w *ap.Writer, now time.Time) string {
 	h := w.HeaderAtWH
 	if h == nil {
 		return "no headers at WriteHeader time"
+	}
+	for _, k := range []string{"Content-Type", "Date", "Digest"} {
+		if n := len(h.Values(k)); n != 1 {
+			return fmt.Sprintf("%s has %d values %q (exactly one expected, whatever the ResponseWriter held before)", k, n, h.Values(k))
+		}
 	}
 	if ct := h.Get("Content-Type"); ct != ap.APType {
 		return fmt.Sprintf("Content-Type %q", ct)
@@ -121,7 +130,7 @@ func C20(tier string) int {
 		}
 		gen(nil)
 		totalPages += len(seqsI)
-		res.Rule = fmt.Sprintf("ordered-collection pages whose items are every sequence of length 0..%d over {IRI a, IRI b, embedded Note a, embedded Note b, embedded Create a, embedded value without id} (%d pages), and every sequence of length 0..3 over 11 items whose ids differ in exactly one URL component (host, scheme, fragment, query, port, trailing slash, case, sub-path; IRI and embedded), served through GetInbox and GetOutbox; every pair of {GetInbox, GetOutbox, handler x 2 values} handled concurrently on one Actor under the cooperative scheduler (all interleavings of seam calls and clock reads): each response carries the Digest of its own bytes and equals the one served alone; handler values of every vocabulary type, Tombstone, missing value, Get error; %d clock instants at second/day/year boundaries in 5 time zones; oracle: body JSON-equal to the supplied value with (inbox) later duplicates of an id removed and order kept, Content-Type constant, Date = clock in RFC 7231 GMT form, Digest = base64 SHA-256 of the bytes written, 410 for a Tombstone, ErrNotFound with nothing written for a missing value; non-trivial = pages with at least one duplicate id or a handler value", maxLen, len(seqsI), len(clocks))
+		res.Rule = fmt.Sprintf("ordered-collection pages whose items are every sequence of length 0..%d over {IRI a, IRI b, embedded Note a, embedded Note b, embedded Create a, embedded value without id} (%d pages), and every sequence of length 0..3 over 11 items whose ids differ in exactly one URL component (host, scheme, fragment, query, port, trailing slash, case, sub-path; IRI and embedded), served through GetInbox and GetOutbox; every pair of {GetInbox, GetOutbox, handler x 2 values} handled concurrently on one Actor under the cooperative scheduler (all interleavings of seam calls and clock reads): each response carries the Digest of its own bytes and equals the one served alone; handler values of every vocabulary type, Tombstone, missing value, Get error; %d clock instants at second/day/year boundaries in 5 time zones; a third of the pages and half of the handler values served on a ResponseWriter that already carries stale Content-Type / Date / Digest values (each must end with exactly one, correct value); oracle: body JSON-equal to the supplied value with (inbox) later duplicates of an id removed and order kept, Content-Type constant, Date = clock in RFC 7231 GMT form, Digest = base64 SHA-256 of the bytes written, 410 for a Tombstone, ErrNotFound with nothing written for a missing value; non-trivial = pages with at least one duplicate id or a handler value", maxLen, len(seqsI), len(clocks))
 		var mu sync.Mutex
 		chunk := 400
 		parallel((len(seqsI)+chunk-1)/chunk, func(ci int) {
@@ -168,6 +177,10 @@ func C20(tier string) int {
 							return t.(vocab.ActivityStreamsOrderedCollectionPage), nil
 						}
 					}}
+					if (lo+si)%3 == 1 {
+						sc.PreHeaders = staleHeaders
+						sc.Name += " stale-headers-on-writer"
+					}
 					out := sc.Exec(mc.NewExec(nil), false)
 					evals++
 					rep := M{"check": "C20", "entry": entry, "items": names}
@@ -353,6 +366,9 @@ func C20(tier string) int {
 			}
 			now := now
 			sc := &Scenario{Name: "handler/" + tk, Kind: ap.Both, Entry: "Handler", URL: id, Tweak: func(a *ap.App) { a.PutDoc(doc); a.Now = now }}
+			if len(tk)%2 == 1 || tk == "ActivityStreams/Tombstone" {
+				sc.PreHeaders = staleHeaders
+			}
 			out := sc.Exec(mc.NewExec(nil), false)
 			res.Case("handler|" + tk)
 			rep := M{"check": "C20", "entry": "Handler", "stored": doc}
